@@ -907,3 +907,27 @@ Print Assumptions C01_layouts_refuted_when_hidden_child_is_set_before_its_query.
 Print Assumptions C01_traced_memo_is_memo.
 Print Assumptions C01_traced_memo_brackets.
 Print Assumptions C01_memo_total.
+
+(* ---- the TRANSLATED compute_cached_layout (Gen/EngineGlueGen.v, regenerated from src/compute/mod.rs on every run: cache_get with the
+   input's key, on a hit return it, else compute, cache_store under the SAME key, return) is the cache step of `memo`: one unfolding
+   of `memo` is the hidden-mode guard, then the translated function around "the (Display::None, _) arm, else the algorithm".
+   Instantiation (Model/EngineGlue.v): the node's own cache, keyed by the complete input ---- *)
+From TV Require Gen.EngineGlueGen Model.EngineGlue Model.EngineGlueTables Proofs.EngineGlueProofs.
+
+Theorem C01_translated_cached_layout_is_model :
+  forall (S In Out Lay : Type) (mode : In -> RunMode) (in_eqb : In -> In -> bool) (is_none : S -> bool)
+         (hidden_out : Out) (zero_lay : Lay) (algo : S -> list S -> In -> Alg In Out Lay) f t i,
+    memo S In Out Lay mode in_eqb is_none hidden_out zero_lay algo (Datatypes.S f) t i =
+    if EngineGlue.eg_is_hidden In mode i then Some (hidden_out, hide S In Out Lay zero_lay t)
+    else EngineGlue.eg_swap S In Out Lay
+           (EngineGlue.eg_cached_layout S In Out Lay mode in_eqb t i
+              (EngineGlue.eg_uncached S In Out Lay is_none hidden_out zero_lay algo
+                 (memo S In Out Lay mode in_eqb is_none hidden_out zero_lay algo f))).
+Proof. intros. apply EngineGlueProofs.memo_is_translated_cached_layout. Qed.
+
+(* the fields of the input the source passes to cache_get AND cache_store *)
+Example C01_translated_cache_key_fields :
+  EngineGlueGen.glue_cache_key_fields = EngineGlueTables.expected_cache_key_fields.
+Proof. reflexivity. Qed.
+
+Print Assumptions C01_translated_cached_layout_is_model.
